@@ -22,10 +22,10 @@
 (***************************************************************************)
 EXTENDS LossesCore
 
-CONSTANTS Shapes,      \* subset of {"ss", "tc", "ptc"}
+CONSTANTS Shapes,      \* subset of {"ss", "ssc", "tc", "ptc"}
           MaxChain,    \* largest number of chain members (ss), >= 2
           MaxPools,    \* largest number of pools (tc), 1 or 2
-          Rich,        \* TRUE: every source of the initial value also for two pools, more time grids
+          Rich,        \* TRUE: more sources of the initial values for two variables, more time grids / candidates
           EmitOn
 VARIABLES sc, ph
 fvars == <<sc, ph>>
@@ -49,39 +49,70 @@ AS   == <<RInt(2), RInt(3)>>                                \* inflow multiples 
 TimeSets == IF Rich THEN {<<1, 2, 3>>, <<0, 1, 2>>, <<1, 3>>} ELSE {<<1, 2, 3>>, <<0, 1, 2>>}
 Prots == {<<[dur |-> 1, A |-> RInt(2)], [dur |-> 2, A |-> RInt(0)]>>,
           <<[dur |-> 2, A |-> RInt(0)], [dur |-> 1, A |-> RInt(4)]>>}
-PTimes == IF Rich THEN {<<1, 2, 3>>, <<1, 3>>, <<2, 3>>, <<1, 2>>} ELSE {<<1, 2, 3>>, <<2, 3>>, <<1, 2>>}
+PTimes == IF Rich THEN {<<1, 2, 3>>, <<1, 3>>, <<2, 3>>, <<1, 2>>} ELSE {<<1, 2, 3>>, <<2, 3>>}
 MaxExp == 6                                                 \* largest j * t (keeps every intermediate below 2^31)
 SeqMax(s) == IF s = <<>> THEN 0 ELSE CHOOSE x \in {s[i] : i \in 1..Len(s)} : \A i \in 1..Len(s) : s[i] <= x
 Small(s, ts) == SeqMax(s.jc) * SeqMax(ts) <= MaxExp /\ SeqMax(s.jt) * SeqMax(ts) <= MaxExp
 Offs(n) == {[i \in 1..n |-> RZero], [i \in 1..n |-> IF i = 1 THEN R(1, 2) ELSE RZero]}
-Srcs == {"model", "y0", "p0"}
 
-Blank == [shape |-> "", n |-> 0, jt |-> <<>>, jc |-> <<>>, x0 |-> <<>>, x0c |-> <<>>, src |-> "model",
+(***************************************************************************)
+(* Where a variable's initial value comes from (one entry per variable):   *)
+(*   "model"  the caller's model holds it,                                 *)
+(*   "y0"     the model holds a decoy, y0= supplies it,                    *)
+(*   "p0"     it is FITTED: p0 names the variable, the candidate value is  *)
+(*            written with update_variable; the model holds a decoy,       *)
+(*   "p0y0"   fitted AND mentioned in y0 (with yet another decoy).         *)
+(* The clause "the prediction AT THE CANDIDATE VALUES": a fitted initial   *)
+(* value takes precedence over y0, y0 over the model (EffInit).            *)
+(***************************************************************************)
+Srcs1 == {"model", "y0", "p0", "p0y0"}
+Srcs2 == IF Rich THEN {<<"model", "model">>, <<"y0", "y0">>, <<"p0", "model">>, <<"p0", "y0">>, <<"p0y0", "y0">>,
+                       <<"p0y0", "model">>, <<"model", "p0y0">>, <<"p0", "p0y0">>}
+         ELSE {<<"model", "model">>, <<"p0", "y0">>, <<"p0y0", "y0">>, <<"p0y0", "model">>}
+Decoy  == RInt(1)          \* what the caller's model holds when the value comes from elsewhere
+Decoy2 == RInt(2)          \* what y0 says about a variable that is fitted as well
+Fitted(s, i) == s.srcs[i] \in {"p0", "p0y0"}
+InY0(s, i)   == s.srcs[i] \in {"y0", "p0y0"}
+ModelInit(s, i) == IF s.srcs[i] = "model" THEN s.x0[i] ELSE Decoy
+Y0Val(s, i)     == IF s.srcs[i] = "y0" THEN s.x0[i] ELSE Decoy2
+\* the initial value the simulation behind a residual starts from, for candidate initial values c
+EffInit(s, c, i) == IF Fitted(s, i) THEN c[i] ELSE IF InY0(s, i) THEN Y0Val(s, i) ELSE ModelInit(s, i)
+
+Blank == [shape |-> "", n |-> 0, jt |-> <<>>, jc |-> <<>>, x0 |-> <<>>, x0c |-> <<>>, srcs |-> <<>>,
           times |-> <<>>, prot |-> <<>>, off |-> <<>>]
+
+HasInits(shape) == shape \in {"tc", "ptc", "ssc"}        \* shapes whose prediction depends on the initial values
 
 Init == /\ ph = "shape"
         /\ \E s \in Shapes, n \in 1..MaxChain :
-              /\ (s = "ss" => n >= 2) /\ (s = "ptc" => n = 1) /\ (s = "tc" => n <= MaxPools)
+              /\ (s = "ss" => n >= 2) /\ (s = "ptc" => n = 1) /\ (s = "tc" => n <= MaxPools) /\ (s = "ssc" => n = 2)
               /\ sc = [Blank EXCEPT !.shape = s, !.n = n]
 
-Rates(s) == IF s = "ss" THEN KS ELSE JT
-Cands(s) == IF s = "ss" THEN KS ELSE JC
+Rates(s) == CASE s = "ss" -> KS [] s = "ssc" -> {1, 2} [] OTHER -> JT
+Cands(s, n) == CASE s = "ss" -> KS [] s = "ssc" -> {1, 4} [] OTHER -> IF n = 2 /\ ~Rich THEN {1, 3} ELSE JC
+\* true initial values; candidate initial values of a fitted variable
+Inits(s, i) == CASE s = "ss" -> {RZero}
+                 [] s = "ssc" -> IF i = 1 THEN {RInt(1), RInt(3)} ELSE {RInt(1)}
+                 [] OTHER -> IF i = 2 /\ ~Rich THEN {RInt(4)} ELSE X0S
+CandInits(s) == IF s = "ssc" THEN {RInt(1), RInt(3)} ELSE X0S
 
 \* one component per step, so that no step has more than a few dozen successors
 AddTrue == /\ ph = "shape" /\ Len(sc.jt) < sc.n
-           /\ \E j \in Rates(sc.shape), x \in (IF sc.shape = "ss" THEN {RZero} ELSE X0S) :
+           /\ \E j \in Rates(sc.shape), x \in Inits(sc.shape, Len(sc.jt) + 1) :
                  sc' = [sc EXCEPT !.jt = Append(@, j), !.x0 = Append(@, x)]
            /\ UNCHANGED ph
 ToCand  == /\ ph = "shape" /\ Len(sc.jt) = sc.n
-           /\ \E s \in (IF sc.shape = "ss" \/ (sc.n = 2 /\ ~Rich) THEN {"model"} ELSE Srcs) : sc' = [sc EXCEPT !.src = s]
+           /\ \E ss \in (IF ~HasInits(sc.shape) THEN {[i \in 1..sc.n |-> "model"]}
+                         ELSE IF sc.n = 1 THEN {<<x>> : x \in Srcs1} ELSE Srcs2) : sc' = [sc EXCEPT !.srcs = ss]
            /\ ph' = "cand"
 AddCand == /\ ph = "cand" /\ Len(sc.jc) < sc.n
-           /\ \E j \in Cands(sc.shape), x \in (IF sc.src = "p0" THEN X0S ELSE {sc.x0[Len(sc.jc) + 1]}) :
-                 sc' = [sc EXCEPT !.jc = Append(@, j), !.x0c = Append(@, x)]
+           /\ LET i == Len(sc.jc) + 1
+              IN  \E j \in Cands(sc.shape, sc.n), x \in (IF Fitted(sc, i) THEN CandInits(sc.shape) ELSE {sc.x0[i]}) :
+                     sc' = [sc EXCEPT !.jc = Append(@, j), !.x0c = Append(@, x)]
            /\ UNCHANGED ph
 Finish  == /\ ph = "cand" /\ Len(sc.jc) = sc.n
-           /\ \E o \in Offs(sc.n) :
-                CASE sc.shape = "ss"  -> sc' = [sc EXCEPT !.off = o]
+           /\ \E o \in (IF sc.shape = "ssc" /\ ~Rich THEN {[i \in 1..sc.n |-> RZero]} ELSE Offs(sc.n)) :
+                CASE sc.shape \in {"ss", "ssc"} -> sc' = [sc EXCEPT !.off = o]
                   [] sc.shape = "tc"  -> \E ts \in TimeSets : Small(sc, ts) /\ sc' = [sc EXCEPT !.off = o, !.times = ts]
                   [] sc.shape = "ptc" -> \E ts \in PTimes, pr \in Prots : Small(sc, ts) /\ sc' = [sc EXCEPT !.off = o, !.times = ts, !.prot = pr]
            /\ ph' = "done"
@@ -89,25 +120,33 @@ Next == AddTrue \/ ToCand \/ AddCand \/ Finish
 
 (***************************************************************************)
 (* closed-form tables: a sequence of groups (see Losses.tla)               *)
+(* j: rate constants, x0: the initial values the simulation starts from    *)
 (***************************************************************************)
 Val(s, j, x0, i, t) ==
     CASE s.shape = "ss"  -> RDiv(KIn, RInt(j[i]))
+      \* closed loop x1 <-> x2 (k1 x1, k2 x2): the total of the initial values is conserved
+      [] s.shape = "ssc" -> LET tot == RAdd(x0[1], x0[2])
+                            IN  RDiv(RMul(tot, RInt(j[IF i = 1 THEN 2 ELSE 1])), RInt(j[1] + j[2]))
       [] s.shape = "tc"  -> Pool(AS[i], j[i], x0[i], t)
       [] s.shape = "ptc" -> PoolProt(s.prot, j[i], x0[i], t)
 
-TruthT(s) == IF s.shape = "ss" THEN << [i \in 1..s.n |-> Val(s, s.jt, s.x0, i, 0)] >>
+OneGroup(s) == s.shape \in {"ss", "ssc"}
+\* the data are generated from the true rate constants and the true initial values
+TruthT(s) == IF OneGroup(s) THEN << [i \in 1..s.n |-> Val(s, s.jt, s.x0, i, 0)] >>
              ELSE [i \in 1..s.n |-> [r \in 1..Len(s.times) |-> Val(s, s.jt, s.x0, i, s.times[r])]]
 \* the data: the truth, optionally displaced (first entry of the first group / first row of every displaced column)
-DataT(s) ==  IF s.shape = "ss" THEN << [i \in 1..s.n |-> RAdd(TruthT(s)[1][i], s.off[i])] >>
+DataT(s) ==  IF OneGroup(s) THEN << [i \in 1..s.n |-> RAdd(TruthT(s)[1][i], s.off[i])] >>
              ELSE [i \in 1..s.n |-> [r \in 1..Len(s.times) |-> IF r = 1 THEN RAdd(TruthT(s)[i][r], s.off[i]) ELSE TruthT(s)[i][r]]]
-PredT(s) ==  IF s.shape = "ss" THEN << [i \in 1..s.n |-> Val(s, s.jc, s.x0c, i, 0)] >>
-             ELSE [i \in 1..s.n |-> [r \in 1..Len(s.times) |-> Val(s, s.jc, s.x0c, i, s.times[r])]]
+\* the prediction at the candidate: candidate rate constants, initial values by precedence (EffInit)
+CandStart(s) == [i \in 1..s.n |-> EffInit(s, s.x0c, i)]
+PredT(s) ==  IF OneGroup(s) THEN << [i \in 1..s.n |-> Val(s, s.jc, CandStart(s), i, 0)] >>
+             ELSE [i \in 1..s.n |-> [r \in 1..Len(s.times) |-> Val(s, s.jc, CandStart(s), i, s.times[r])]]
 
 Generated(s) == \A i \in 1..s.n : RIsZero(s.off[i])       \* the data were generated by the model
-AtTruth(s)   == s.jc = s.jt /\ s.x0c = s.x0
+AtTruth(s)   == s.jc = s.jt /\ CandStart(s) = s.x0
 
 \* a norm of a table is a vector norm only for a single column or a single row
-OneVector(s) == s.shape = "ss" \/ s.n = 1
+OneVector(s) == OneGroup(s) \/ s.n = 1
 \* the percentage loss divides by entries of its first argument: cases within a factor 16 of a zero divisor are fragile
 SmallDiv(name, cells) == name = "mean_absolute_percentage" /\
                          \E i \in 1..Len(cells) : RLt(RAbs(cells[i]), R(1, 16))
@@ -127,7 +166,7 @@ Expected(s) ==
 
 \* sanity theorems of this module (checked on every scenario)
 \* (exact sums: only for the one-group scenarios, whose numbers stay small)
-SmallSc == sc.shape = "ss" \/ sc.n = 1
+SmallSc == OneGroup(sc) \/ sc.n = 1
 ZeroAtTruth == (ph = "done" /\ SmallSc /\ AtTruth(sc) /\ Generated(sc)) =>
     \A nm \in {"mean_squared", "rmse", "mae", "mean"} :
         Collapse(Expected(sc)[nm]["plain"].dp) = [k |-> "ssq", ts |-> <<>>]
@@ -140,5 +179,7 @@ SymmetricAgree == (ph = "done" /\ SmallSc) =>
 
 Emit == (EmitOn /\ ph = "done") =>
     PrintT("@J@" \o ToJson([sc |-> sc, kin |-> KIn, As |-> AS, data |-> DataT(sc), pred |-> PredT(sc),
+                             minit |-> [i \in 1..sc.n |-> ModelInit(sc, i)],
+                             y0 |-> [i \in 1..sc.n |-> IF InY0(sc, i) THEN Y0Val(sc, i) ELSE [n |-> 0, d |-> 0]],
                              generated |-> Generated(sc), exp |-> Expected(sc)]) \o "@E@")
 =============================================================================
